@@ -42,6 +42,7 @@ import (
 func main() { core.Main("C06", "model_checking", run) }
 
 const sigF1 = "preorder-not-transitive:int~float~int:above-2^53"
+const sigF2 = "sort-spill-differs:key-field-index-varies-by-record-type"
 
 // pullerBatch is zbuf.PullerBatchValues for this process (PB of MergeOp.tla).
 const pullerBatch = 2
